@@ -10,6 +10,7 @@
 -/
 import BSVerif.Num.Lemmas
 import BSVerif.Num.Spec
+import BSVerif.Num.NanLemmas
 
 namespace BSVerif.Props.C04
 open BSVerif.Num
@@ -113,11 +114,11 @@ theorem float_widen_total (ops : FloatOps) (b : Nat) :
     convFloatFloat ops .f32 .f64 b = .ok (ops.cvt .f32 .f64 b) := by
   simp [convFloatFloat, FloatFmt.width]
 
-/-- double → float: stored (rounded by the hardware) exactly when `lowest ≤ v ≤ max`; otherwise — too large,
-    infinite or NaN — `std::out_of_range`; never anything else -/
+/-- double → float: stored (converted by the hardware) when the value is infinite, NaN, or `lowest ≤ v ≤ max`; otherwise — a finite
+    value beyond the range — `std::out_of_range`; never anything else -/
 theorem float_narrow_cases (ops : FloatOps) (b : Nat) :
     convFloatFloat ops .f64 .f32 b =
-      if ops.le .f32 FloatFmt.f32.lowestBits .f64 b = true ∧ ops.le .f64 b .f32 FloatFmt.f32.maxBits = true
+      if isFinite .f64 b = false ∨ (ops.le .f32 FloatFmt.f32.lowestBits .f64 b = true ∧ ops.le .f64 b .f32 FloatFmt.f32.maxBits = true)
       then .ok (ops.cvt .f64 .f32 b) else .err .outOfRange := by
   simp [convFloatFloat, FloatFmt.width]
 
@@ -133,34 +134,27 @@ def fltAnswer : Outcome Nat → Option ConvAnswer
 def NarrowFull : Prop :=
   ∀ b : Nat, ∃ a, fltAnswer (convFloatFloat refOps .f64 .f32 b) = some a ∧ acceptFromFloat .f64 (.flt .f32) b a = true
 
-/-- The unchanged code violates it: +∞ (a value `float` has) is answered with out_of_range.
-    Recorded as known finding `nonfinite-double-to-float-overflow`; witness `num.conv f64 f32 7ff0000000000000`. -/
-theorem float_narrow_full_refuted : ¬ NarrowFull := by
-  intro h
-  obtain ⟨a, h1, h2⟩ := h 0x7FF0000000000000
-  have e : fltAnswer (convFloatFloat refOps .f64 .f32 0x7FF0000000000000) = some (.err .outOfRange) := by decide +kernel
-  rw [e] at h1
-  cases h1
-  revert h2
-  decide +kernel
-
-/-- … and holds for every finite double: the excluded inputs are exactly the non-finite bit patterns. -/
-theorem float_narrow_partial (b : Nat) (hfin : isFinite .f64 b = true) :
-    ∃ a, fltAnswer (convFloatFloat refOps .f64 .f32 b) = some a ∧ acceptFromFloat .f64 (.flt .f32) b a = true := by
+/-- **Holds on the repaired code** (it was refuted by +∞ before `!std::isfinite(v)` was added to the range test;
+    witness `num.conv f64 f32 7ff0000000000000` stays in corpus/C04 as a regression op). -/
+theorem float_narrow_full : NarrowFull := by
+  intro b
   unfold convFloatFloat acceptFromFloat
   have hne : (FloatFmt.f64 = FloatFmt.f32) = False := by simp
-  simp only [FloatFmt.width, hne, ↓reduceIte, hfin, Bool.not_true, Bool.false_eq_true, refOps]
-  by_cases hr : fle .f32 FloatFmt.f32.lowestBits .f64 b = true ∧ fle .f64 b .f32 FloatFmt.f32.maxBits = true
-  · refine ⟨.ok (.flt (cvt .f64 .f32 b)), ?_, ?_⟩
-    · have : ¬ (32 > 64) := by omega
-      simp [this, hr, fltAnswer]
-    · simp [hr]
-  · refine ⟨.err .outOfRange, ?_, ?_⟩
-    · have : ¬ (32 > 64) := by omega
-      simp [this, hr, fltAnswer]
-    · simp [hr]
+  have hw : ¬ (32 > 64) := by omega
+  by_cases hfin : isFinite .f64 b = true
+  · simp only [FloatFmt.width, hne, ↓reduceIte, hfin, Bool.not_true, Bool.false_eq_true, refOps]
+    by_cases hr : fle .f32 FloatFmt.f32.lowestBits .f64 b = true ∧ fle .f64 b .f32 FloatFmt.f32.maxBits = true
+    · exact ⟨.ok (.flt (cvt .f64 .f32 b)), by simp [hw, hr, fltAnswer], by simp [hr]⟩
+    · exact ⟨.err .outOfRange, by simp [hw, hr, fltAnswer], by simp [hr]⟩
+  · have hf : isFinite .f64 b = false := by simpa using hfin
+    refine ⟨.ok (.flt (cvt .f64 .f32 b)), by simp [FloatFmt.width, hw, hf, fltAnswer, refOps], ?_⟩
+    simp only [hne, ↓reduceIte, hf, Bool.not_false]
+    by_cases hn : isNaN .f64 b = true
+    · have hd : decode .f64 b = .nan := by simpa [isNaN] using hn
+      simp [hn, cvt_nan_is_nan b hd]
+    · simp [hn]
 
-example : isFinite .f64 0x47EFFFFFE0000000 = true := by decide +kernel
+example : isFinite .f64 0x7FF0000000000000 = false ∧ isFinite .f64 0x47EFFFFFE0000000 = true := by decide +kernel
 
 /-! #### all pairs -/
 
